@@ -152,20 +152,48 @@ def part_tables(rels, only_keys=None):
     return run
 
 
+def part_wit(pid):
+    def run(ctx):
+        from . import rules_wit
+        n = rules_wit.check(ctx, pid)
+        ctx.explanation += ("R-WIT: _Static_assert witnesses compiled against /repo's headers with the build's flags: index field offsets/widths/masks, "
+                            "mode values, grid counts, digit and error-code enumerators (rules/witness.c). ")
+        ctx.floor("R-WIT", "witnesses for %s" % pid, n, 1)
+    return run
+
+
+def part_fmt(ctx):
+    from . import rules_fmt
+    n = rules_fmt.check(ctx, module("release", "ssa"), "release")
+    ctx.explanation += ("R-FMT: every printf/scanf-family call has a constant format; h3ToString uses exactly one unpadded lower-case 64-bit %x applied to "
+                        "the whole index and written to str, its longest output (derived from the format) + NUL is never reachable with a smaller sz; "
+                        "stringToH3 parses with the same conversion into the H3Index it stores. ")
+    ctx.floor("R-FMT", "format call sites", n, 2)
+
+
+def part_ret(ctx):
+    from . import rules_ret
+    n = rules_ret.check(ctx, module("release", "ssa"), "release", ir.exported_api())
+    ctx.explanation += ("R-RET: value-set fixpoint over everything typed H3Error in debug info (returns, parameters, iterator error fields): every "
+                        "function can only return codes 0..15. ")
+    ctx.floor("R-RET", "functions returning H3Error", n, 60)
+
+
 PARTS = {
-    "C01": [part_guards("C01"), part_tables(["T7"], {"T7": ["isBaseCellPentagonArr"]})],
-    "C02": [part_guards("C02"), part_tables(["T6", "T16"])],
-    "C03": [part_guards("C03"), part_tables(["T7", "T4", "T5", "T9"], {"T7": ["pentagonCount", "res0CellCount", "getRes0Cells", "getPentagons", "baseCellNeighbors:rows", "baseCellNeighbor60CCWRots:rows"]})],
-    "C04": [part_guards("C04")],
-    "C05": [part_guards("C05"), part_tables(["T1", "T2", "T3", "T10", "T11", "T7"], {"T7": ["baseCellNeighbors", "baseCellNeighbor60CCWRots"]})],
+    "C01": [part_guards("C01"), part_tables(["T7"], {"T7": ["isBaseCellPentagonArr"]}), part_wit("C01")],
+    "C02": [part_guards("C02"), part_tables(["T6", "T16"]), part_wit("C02")],
+    "C03": [part_guards("C03"), part_tables(["T7", "T4", "T5", "T9"], {"T7": ["pentagonCount", "res0CellCount", "getRes0Cells", "getPentagons", "baseCellNeighbors:rows", "baseCellNeighbor60CCWRots:rows"]}), part_wit("C03")],
+    "C04": [part_guards("C04"), part_wit("C04")],
+    "C05": [part_guards("C05"), part_tables(["T1", "T2", "T3", "T10", "T11", "T7"], {"T7": ["baseCellNeighbors", "baseCellNeighbor60CCWRots"]}), part_wit("C05")],
     "C06": [part_guards("C06")],
-    "C08": [part_tables(["T5", "T9", "T13"])],
-    "C09": [part_guards("C09"), part_tables(["T1", "T2", "T3", "T10", "T14"])],
-    "C10": [part_guards("C10"), part_tables(["T8", "T12"])],
-    "C11": [part_guards("C11"), part_tables(["T8", "T12", "T7"], {"T7": ["pentagonDirectionFaces"]})],
-    "C12": [part_guards("C12")], "C13": [part_guards("C13")], "C14": [part_guards("C14")], "C15": [part_guards("C15")],
-    "C19": [part_tables(["T5", "T9"])],
-    "C20": [part_guards("C20")],
+    "C08": [part_tables(["T5", "T9", "T13"]), part_wit("C08")],
+    "C09": [part_guards("C09"), part_tables(["T1", "T2", "T3", "T10", "T14"]), part_wit("C09")],
+    "C10": [part_guards("C10"), part_tables(["T8", "T12"]), part_wit("C10")],
+    "C11": [part_guards("C11"), part_tables(["T8", "T12", "T7"], {"T7": ["pentagonDirectionFaces"]}), part_wit("C11")],
+    "C12": [part_guards("C12"), part_ret, part_wit("C12")],
+    "C13": [part_guards("C13"), part_wit("C13")], "C14": [part_guards("C14")], "C15": [part_guards("C15"), part_wit("C15")],
+    "C19": [part_tables(["T5", "T9"]), part_wit("C19")],
+    "C20": [part_guards("C20"), part_fmt, part_wit("C20")],
 }
 
 
